@@ -381,6 +381,8 @@ def rule_f(ctx):
 def rule_d(ctx):
     from .c03 import rule_b as c03b
     c03b(ctx)
+    from .c05 import rule_f as c05f
+    c05f(ctx)
     from .c05 import rule_a as c05a
     from .c03 import rule_c as c03c, rule_f as c03f
     c05a(ctx)
@@ -388,4 +390,4 @@ def rule_d(ctx):
     c03f(ctx)
 
 
-RULES = [('C01.a', rule_a), ('C01.b', rule_b), ('C01.c', rule_c), ('C01.d', rule_e), ('C01.e', rule_f), ('C05.a+C03.b+C03.c+C03.f', rule_d)]
+RULES = [('C01.a', rule_a), ('C01.b', rule_b), ('C01.c', rule_c), ('C01.d', rule_e), ('C01.e', rule_f), ('C05.a+C05.f+C03.b+C03.c+C03.f', rule_d)]
